@@ -59,7 +59,12 @@ func configs() []x.Config {
 	}
 }
 
-type defects struct{ skip, remove, leak, wrap, rmLink, extCsum, longLink, staleLink, stale, trail, dealloc, rmStale, dirShrink bool }
+type defects struct {
+	skip, remove, leak, wrap, rmLink, extCsum, longLink, staleLink, stale, trail, dealloc, rmStale, dirShrink bool
+	// truncIgnored: OpenFile leaves an existing file as it is when O_TRUNC is given (finding ext4-openfile-ignores-trunc,
+	// listed under C16, replayed by the syncfs engine). While it is present no O_TRUNC open is part of the histories.
+	truncIgnored bool
+}
 
 type engine struct {
 	c    *hx.Ctx
@@ -103,6 +108,7 @@ func Run(c *hx.Ctx) {
 	e.pathWalks()
 	e.deepEnospcs()
 	e.histories()
+	e.truncCases() // after the histories: their random streams stay what they were before these cases existed
 }
 
 func reopen(d *memdev.Dev, cfg x.Config) (fs *ext4.FileSystem, err error) {
@@ -209,7 +215,8 @@ func (e *engine) runHistory(h hist, scratch string) {
 		}
 		c.OK(h.id + "/create")
 	}
-	g := &gen{r: h.rng, ref: r, bs: bs, budget: 5 << 20, gaps: h.rng.Chance(50), longName: h.rng.Chance(30), maxName: 255, keepInlineLinks: e.def.rmLink}
+	g := &gen{r: h.rng, ref: r, bs: bs, budget: 5 << 20, gaps: h.rng.Chance(50), longName: h.rng.Chance(30), maxName: 255, keepInlineLinks: e.def.rmLink,
+		trunc: !e.def.truncIgnored}
 	if e.def.wrap {
 		g.maxName = 247
 	}
@@ -282,7 +289,7 @@ func (e *engine) runHistory(h hist, scratch string) {
 				gaps[o.path] = append(gaps[o.path], [2]int64{int64(len(n.data)), o.off})
 			}
 		}
-		if o.kind == "remove" || o.kind == "create" {
+		if o.kind == "remove" || o.kind == "create" || o.kind == "trunc" {
 			delete(gaps, o.path)
 		}
 		// blocks of the parent directory before a Remove (trigger of finding ext4-remove-stale-dir-block)
@@ -596,9 +603,12 @@ func (e *engine) fsckStep(id string, cfg x.Config, d *memdev.Dev, o op, out outc
 			tag = tagLongLink
 		case e.def.staleLink && o.kind == "symlink" && out.refused == nil && len(o.target) >= 60 && len(o.target) < int(view.BlockSize) && strings.Contains(fout, "is invalid"):
 			tag = tagStaleLink
-		case defWriteLeak && (o.kind == "write" || o.kind == "append" || o.kind == "alt") && writeLeakSymptom(out.refused, fout):
+		case defWriteLeak && (o.kind == "write" || o.kind == "append" || o.kind == "alt" || o.kind == "trunc") && writeLeakSymptom(out.refused, fout):
 			// the data blocks of a write the extent tree code refused stay marked
 			tag = tagWriteLeak
+		case defMkdirFull && mkdirFullSymptom(o, out.refused, fout):
+			// the name was entered and the inode marked before the block of the new directory / link target was refused
+			tag = tagMkdirFull
 		case refusedSpace && e.def.leak && (o.kind == "create" || o.kind == "mkdir" || o.kind == "symlink") &&
 			strings.Contains(fout, "Inode bitmap differences") && !strings.Contains(fout, "Block bitmap differences"):
 			tag = tagLeak
